@@ -63,6 +63,23 @@ PointBytes(pt) == pt.v[1] \o pt.v[2] \o pt.v[3] \o pt.v[4]
 FrameBytes(f) == Flatten([i \in 1..Len(f.p) |-> PointBytes(f.p[i])])
                  \o Flatten([s \in 1..Len(f.a) |-> Flatten([i \in 1..Len(f.a[s]) |-> f.a[s][i].v])])
 DataBytes(frm) == Flatten([i \in 1..Len(frm) |-> FrameBytes(frm[i])])
+\* Capacity of the format (checked by write() before anything is written): one byte for lengths, dimensions, counts of
+\* dimensions and group ids; two bytes for integers, next-offsets and header words; 255 parameter blocks
+ElemSize(t) == IF t = TCHAR THEN 1 ELSE IF t = TNONE THEN 10000 ELSE t
+ParamRecSize(p) == 7 + Len(p.n) + Len(p.dim) + Len(p.d) + (IF p.dim = <<>> THEN 0 ELSE Product(p.dim)) * ElemSize(p.t)
+ParamFits(p) ==
+  /\ Len(p.n) <= 127 /\ Len(p.d) <= 255 /\ Len(p.dim) <= 7 /\ \A i \in 1..Len(p.dim) : p.dim[i] <= 255
+  /\ (p.t = TINT => \A i \in 1..Len(p.v) : p.v[i] >= -32768 /\ p.v[i] <= 32767)
+  /\ (p.t = TBYTE => \A i \in 1..Len(p.v) : p.v[i] >= -128 /\ p.v[i] <= 127)
+  /\ ParamRecSize(p) <= 65535
+SectionSize(grp) == 4 + Sum([i \in 1..Len(grp) |-> IF IsPlaceholder(grp[i]) THEN 0
+                                                    ELSE 5 + Len(grp[i].n) + Len(grp[i].d) + Sum([k \in 1..Len(grp[i].p) |-> ParamRecSize(grp[i].p[k])])])
+Fits(obj) ==
+  /\ \A i \in 1..Len(obj.grp) : IsPlaceholder(obj.grp[i]) \/
+        (i <= 127 /\ Len(obj.grp[i].n) <= 127 /\ Len(obj.grp[i].d) <= 255 /\ \A k \in 1..Len(obj.grp[i].p) : ParamFits(obj.grp[i].p[k]))
+  /\ SectionSize(obj.grp) \div 512 + 1 <= 255
+  /\ obj.hdr.npts <= 65535 /\ obj.hdr.meas <= 65535 /\ obj.hdr.perframe <= 65535 /\ obj.hdr.first + 1 <= 65535
+  /\ (Len(obj.frm) > 0 => obj.hdr.last + 1 <= 65535)
 WriterModel(obj) ==
   LET nblk == SectionBlocks(obj.prm, obj.grp)
       dstart == 2 + nblk                                   \* 1-based number of the first data block
